@@ -368,6 +368,22 @@ def mergeOut : Json → Json → Json
   | a, _ => a
 
 mutual
+/-- does Parse return a value of the input's own Go type?  Optional()/Nilable() schemas return a
+    pointer; a union passes on what its chosen member returned.  (union.go prefers the member
+    "whose result type equals the input type".) -/
+def sameType : S → Json → Bool
+  | .opt _, _ => false
+  | .nul _, _ => false
+  | .union ms, x => anySameType ms x
+  | .xor ms, x => anySameType ms x
+  | .and l _, x => sameType l x
+  | _, _ => true
+def anySameType : SList → Json → Bool
+  | .nil, _ => false
+  | .cons s ss, x => (accepts s x && sameType s x) || anySameType ss x
+end
+
+mutual
 def out : S → Json → Json
   | .str cks, x => match x with
       | .str s => match runStr cks s with
@@ -383,7 +399,7 @@ def out : S → Json → Json
   | .tup rest _ items, x => match x with
       | .arr xs => .arr (outItems items (outRest rest) xs)
       | _ => x
-  | .union ms, x => outFirst ms x
+  | .union ms, x => outUnion ms x none
   | .xor ms, x => outFirst ms x
   | .and l r, x => mergeOut (out l x) (out r x)
   | _, x => x
@@ -400,6 +416,16 @@ def outItems : SList → (Json → Json) → JsonList → JsonList
 def outFirst : SList → Json → Json
   | .nil, x => x
   | .cons s ss, x => if accepts s x then out s x else outFirst ss x
+
+/-- union: the first accepting member whose result has the input's type, else the first accepting
+    member (`fb` = the fallback found so far). -/
+def outUnion : SList → Json → Option Json → Json
+  | .nil, x, fb => fb.getD x
+  | .cons s ss, x, fb =>
+      if accepts s x then
+        (if sameType s x then out s x
+         else outUnion ss x (match fb with | some v => some v | none => some (out s x)))
+      else outUnion ss x fb
 end
 
 def parse (s : S) (x : Json) : Option Json := if accepts s x then some (out s x) else none
